@@ -77,13 +77,28 @@ Section Rows.
   (* ---------------------------------------------------------------- one draw_to_term call *)
   Lemma term_draw_n tg ls c :
     let tg' := fst4 (term_draw W H nofail tg ls c) in
-    tt_n tg' = bar_rows (painted ls W H 0) W + draw_shift (tt_align tg) ls (tt_n tg) W H
+    tt_n tg' = bar_rows (painted ls W H 0) W + draw_shift (tt_align tg) ls (N.min (tt_n tg) H) W H
     /\ tt_align tg' = tt_align tg.
   Proof.
     cbv zeta. unfold term_draw, fst4.
     pose proof (draw_to_term_count ls (tt_n tg) (tt_align tg) (tt_below tg) W H) as Hc.
     destruct (draw_to_term ls (tt_n tg) (tt_align tg) (tt_below tg) W H) as [[ops n'] below'].
     rewrite SingleBarProofs.emit_nofail. cbn [fst snd tt_n tt_align] in *. auto.
+  Qed.
+
+  (** after fix 7d42cff (the count is capped at the height before it is used) EVERY draw leaves
+      last_line_count <= H, under either alignment *)
+  Lemma term_draw_le tg ls c : tt_n (fst4 (term_draw W H nofail tg ls c)) <= H.
+  Proof.
+    unfold term_draw, fst4.
+    pose proof (draw_rows_bounded_bottom W H ls (tt_n tg) (tt_below tg)) as Hb.
+    pose proof (SingleBarProofs.draw_rows_bounded W H ls (tt_n tg) (tt_below tg)) as Ht.
+    cbv zeta in Hb, Ht.
+    destruct (tt_align tg).
+    - destruct (draw_to_term ls (tt_n tg) Top (tt_below tg) W H) as [[ops n'] below'].
+      rewrite SingleBarProofs.emit_nofail. cbn [fst snd tt_n] in *. lia.
+    - destruct (draw_to_term ls (tt_n tg) Bottom (tt_below tg) W H) as [[ops n'] below'].
+      rewrite SingleBarProofs.emit_nofail. cbn [fst snd tt_n] in *. lia.
   Qed.
 
   Lemma painted_rows_le ls : bar_rows (painted ls W H 0) W <= H.
@@ -111,7 +126,7 @@ Section Rows.
                                                /\ (forall tg', ms_target m' = TTerm tg' ->
                                                      exists tg, ms_target m = TTerm tg /\ tt_align tg' = tt_align tg))
     /\ (ms_attempt W m force extra now = true ->
-          target_n (ms_target m') <= H + draw_shift (ms_align m) (ms_frame m extra) (ms_erase_n m extra) W H
+          target_n (ms_target m') <= H
           /\ ms_align m' = ms_align m
           /\ (forall tg', ms_target m' = TTerm tg' -> tt_align tg' = ms_align m)).
   Proof.
@@ -130,13 +145,13 @@ Section Rows.
       destruct (fst (tt_allow tg1 fo now)) eqn:Eal; cbn [negb fst snd].
       + split; [discriminate|]. intros _.
         match goal with |- context [term_draw W H nofail ?t ?l c] =>
-          destruct (term_draw_n t l c) as (Tn & Ta); set (td := term_draw W H nofail t l c) in * end.
+          destruct (term_draw_n t l c) as (_ & Ta); pose proof (term_draw_le t l c) as Tn;
+          set (td := term_draw W H nofail t l c) in * end.
         cbn [tt_n tt_align] in Tn, Ta. unfold fst4 in Tn, Ta.
         match goal with |- context [fold_left ms_remove_idx ?zs ?m0] =>
           destruct (fold_remove_other zs m0) as (Fa & _ & _ & Ft); set (m2 := fold_left ms_remove_idx zs m0) in * end.
         cbn [ms_target ms_align set_ms_target set_ms_zombie_lines set_ms_orphans] in Fa, Ft.
-        pose proof (painted_rows_le (ms_frame m extra)) as Hle.
-        rewrite En, E1 in Tn. cbn [target_n].
+        cbn [target_n].
         unfold fst4. destruct ht; cbn [fst].
         * rewrite Ft, Fa. cbn [target_n]. split; [lia|]. split; [reflexivity|].
           intros tg' Etg'. injection Etg' as <-. exact Ta.
@@ -160,7 +175,7 @@ Section Rows.
     ms_align m' = ms_align m
     /\ match ms_target m with
        | TTerm tg => exists tg', ms_target m' = TTerm tg' /\ ms_zombie_lines m' = 0
-                       /\ tt_n tg' = draw_shift (tt_align tg) [] (region_count m) W H
+                       /\ tt_n tg' = draw_shift (tt_align tg) [] (N.min (region_count m) H) W H
                        /\ tt_align tg' = tt_align tg
        | _ => ms_target m' = ms_target m
        end.
@@ -174,6 +189,17 @@ Section Rows.
       split; [reflexivity|]. exists tg2. split; [reflexivity|]. split; [reflexivity|].
       cbn [tt_adjust_clear tt_n tt_align target_n] in *. split; [|exact Ta].
       rewrite Tn. unfold bar_rows. cbn. lia.
+    - unfold fst4; cbn [fst]. now rewrite Ht.
+  Qed.
+
+  Lemma ms_clear_le m c : target_n (ms_target m) <= H ->
+    target_n (ms_target (fst4 (ms_clear W H nofail m c))) <= H.
+  Proof.
+    intros Hn. unfold ms_clear. destruct (ms_target m) as [|tg|i] eqn:Ht.
+    - unfold fst4; cbn [fst]. now rewrite Ht.
+    - pose proof (term_draw_le (tt_adjust_clear tg (ms_zombie_lines m)) [] c) as Tn. unfold fst4 in *.
+      destruct (term_draw W H nofail (tt_adjust_clear tg (ms_zombie_lines m)) [] c) as [[[tg2 e] c'] ok].
+      cbn [fst ms_target set_ms_target set_ms_zombie_lines target_n] in *. exact Tn.
     - unfold fst4; cbn [fst]. now rewrite Ht.
   Qed.
 
@@ -206,7 +232,7 @@ Section Rows.
       assert (Her : ms_erase_n m1' None = 0).
       { unfold ms_erase_n. rewrite Ht1', Hz1'. cbn [target_n tt_n]. destruct (ms_has_text m1' None); lia. }
       destruct (ms_attempt W m1' true None now) eqn:Hatt.
-      + destruct (Hyes eq_refl) as (Hn3 & Ha3 & Hta3). rewrite Her, draw_shift_zero in Hn3.
+      + destruct (Hyes eq_refl) as (Hn3 & Ha3 & Hta3).
         split; [lia|]. intros [HA HT]. split; [congruence|]. intros tg3 E3. rewrite (Hta3 tg3 E3). congruence.
       + destruct (Hno eq_refl) as (Hn3 & Ha3 & Hta3). rewrite Hn3, Ht1'. cbn [target_n tt_n]. split; [lia|].
         intros [HA HT]. split; [congruence|]. intros tg3 E3. destruct (Hta3 tg3 E3) as (tg0 & E0 & E0').
@@ -251,11 +277,17 @@ Section Rows.
     - unfold fst4; cbn. exact Hinv.
     - destruct (ms_draw_rows m force extra now c Hwf) as (Hno & Hyes).
       destruct (ms_attempt W m force extra now).
-      + now destruct (Hyes eq_refl).
+      + destruct (Hyes eq_refl) as (Hy & _). lia.
       + destruct (Hno eq_refl) as (-> & _). exact Hinv.
-    - destruct (ms_clear_rows m c) as (_ & Hcl). destruct (ms_target m) as [|tg|i].
+    - pose proof (ms_clear_le m c) as Hle. destruct (ms_clear_rows m c) as (_ & Hcl).
+      destruct (ms_target m) as [|tg|i] eqn:Ht.
       + rewrite Hcl. cbn. lia.
-      + destruct Hcl as (tg' & Et & _ & En & _). rewrite Et. cbn [target_n]. rewrite En. lia.
+      + assert (Hb : target_n (ms_target (fst4 (ms_clear W H nofail m c))) <= H); [|lia].
+        destruct Hcl as (tg' & Et & _). rewrite Et in *. cbn [target_n] in *.
+        pose proof (term_draw_le (tt_adjust_clear tg (ms_zombie_lines m)) [] c) as Tn.
+        unfold ms_clear in Et. rewrite Ht in Et. unfold fst4 in *.
+        destruct (term_draw W H nofail (tt_adjust_clear tg (ms_zombie_lines m)) [] c) as [[[tg2 e] c'] ok].
+        cbn [fst ms_target set_ms_target set_ms_zombie_lines] in *. injection Et as <-. lia.
       + rewrite Hcl. cbn. lia.
     - destruct (ms_suspend_rows m ws now c) as (Hs & _).
       destruct (ms_suspend W H nofail m ws now c) as [[m' e] c']. unfold fst4; cbn [fst] in *.
@@ -692,3 +724,60 @@ Section EraseCount.
     intros extra. unfold ms_erase_n. rewrite Hz, Hc. destruct (ms_has_text _ extra); lia.
   Qed.
 End EraseCount.
+
+(* ------------------------------------------------------------------ last_line_count <= H, no ghost
+   After fix 7d42cff (the count is capped at the terminal height before it is used) the bound needs
+   no padding ghost any more: every attempted draw leaves last_line_count <= H under either alignment
+   ([term_draw_le]); LineAdjust::Clear inflates the count only inside a call that draws right away
+   (a draw carrying text lines is never refused by the limiter), LineAdjust::Keep only lowers it. *)
+Section RowsH.
+  Variable W H : N.
+
+  Lemma act_le_H now m c a : act_wf a -> target_n (ms_target m) <= H ->
+    target_n (ms_target (fst4 (mp_exec1 W H nofail now m c a))) <= H.
+  Proof.
+    intros Hwf Hinv. destruct a as [idx texts bars|force extra| |ws|idx|loc|idx|al|ws]; cbn [mp_exec1].
+    - unfold fst4; cbn. exact Hinv.
+    - destruct (ms_draw_rows W H m force extra now c Hwf) as (Hno & Hyes).
+      destruct (ms_attempt W m force extra now).
+      + now destruct (Hyes eq_refl).
+      + destruct (Hno eq_refl) as (-> & _). exact Hinv.
+    - apply ms_clear_le. exact Hinv.
+    - destruct (ms_suspend_rows W H m ws now c) as (Hs & _).
+      destruct (ms_suspend W H nofail m ws now c) as [[m' e] c']. unfold fst4; cbn [fst] in *. exact Hs.
+    - unfold fst4; cbn [fst]. destruct (remove_idx_other m idx) as (_ & _ & _ & ->). exact Hinv.
+    - unfold fst4; cbn [fst]. destruct (ms_insert m loc) as [[m1 i]|] eqn:Ei; [|exact Hinv].
+      destruct (ms_insert_target m loc m1 i Ei) as (-> & _). exact Hinv.
+    - unfold fst4; cbn [fst]. destruct (ms_mark_target W m idx) as (Hle & _). lia.
+    - unfold fst4; cbn. exact Hinv.
+    - destruct (emit_each nofail c (map TLine ws)) as [e c']. unfold fst4; cbn. exact Hinv.
+  Qed.
+
+  Lemma mp_run_le_H now acts : forall m c, Forall act_wf acts -> target_n (ms_target m) <= H ->
+    target_n (ms_target (fst (fst (mp_run W H nofail now m c acts)))) <= H.
+  Proof.
+    induction acts as [|a r IH]; intros m c Hwf Hinv; cbn [mp_run]; [exact Hinv|].
+    inversion Hwf as [|x y Ha Hr]; subst.
+    pose proof (act_le_H now m c a Ha Hinv) as Hb. unfold fst4 in Hb.
+    destruct (mp_exec1 W H nofail now m c a) as [[[m1 e1] c1] ok1]. cbn [fst] in Hb.
+    specialize (IH m1 c1 Hr Hb).
+    destruct (mp_run W H nofail now m1 c1 r) as [[m2 e2] c2]. exact IH.
+  Qed.
+
+  Lemma step_le_H s now o : target_n (ms_target (s_mp s)) <= H ->
+    target_n (ms_target (s_mp (step_sys W H nofail s now o))) <= H.
+  Proof.
+    intros Hinv. destruct (step_mp W H nofail s now o) as [E _]. cbn [fst] in E. rewrite E.
+    apply mp_run_le_H; [|exact Hinv].
+    eapply Forall_impl; [|apply (op_actions_ok W false s now o); discriminate]. intros a [Ha _]. exact Ha.
+  Qed.
+
+  (** C19 (c) for MultiProgress, every history of public calls (valid or not), ANY alignment and
+      any alignment changes, no I/O failures: after every call last_line_count <= H *)
+  Theorem multi_rows_le_H : forall ops s, target_n (ms_target (s_mp s)) <= H ->
+    target_n (ms_target (s_mp (run W H nofail s ops))) <= H.
+  Proof.
+    induction ops as [|[now o] r IH]; intros s Hinv; cbn [run]; [exact Hinv|].
+    apply IH. apply step_le_H. exact Hinv.
+  Qed.
+End RowsH.
